@@ -772,6 +772,9 @@ theorem applyNested_rc (D : Desc) (f : Fsm) (e : Bool) (acts : List Nested) (n :
     | edit bs =>
       simp only [applyNested]
       split <;> exact ih (by simpa [noApi] using ha) _ (h.congr (by simp))
+    | report n =>
+      simp only [applyNested]
+      split <;> exact ih (by simpa [noApi] using ha) _ (h.congr (by simp))
 
 theorem varWriteCb_rc (D : Desc) (s : St) (v : VarD) (i : SvcIn) (n : Nat) (hv : noApi i.vc.acts = true) (h : RC n s) :
     RC n (varWriteCb D s v i).1 := by
